@@ -29,7 +29,7 @@ func TestMain(m *testing.M) { os.Exit(evid.Main(m)) }
 var ev = evid.For(prop)
 
 func init() {
-	ev.SetRule("cases = (1) valid UTF-8 strings through Ref/SoftRef marshal+unmarshal, (2) JSON values through MarshalDataValue/UnmarshalDataValue, (3) JSON texts (random insignificant whitespace, member order, extra and duplicate members) through store.Value parsing against a reference classifier, and Equal on generated triples, (4) responses of generated handler outcomes parsed by resprot; a case is non-trivial when the string needs >=1 escape or has >=1 multi-byte rune, the JSON text has whitespace/extra/duplicate members, or the response carries meta or nested data; distinct = hash of the input")
+	ev.SetRule("cases = (1) valid UTF-8 strings through Ref/SoftRef marshal+unmarshal, (2) JSON values through MarshalDataValue/UnmarshalDataValue, (3) JSON texts (random insignificant whitespace, member order, extra and duplicate members) through store.Value parsing against a reference classifier, and Equal on generated triples, (4) responses of generated handler outcomes parsed by resprot; a case is non-trivial when the string needs >=1 escape or has >=1 multi-byte rune, the JSON text has whitespace/extra/duplicate members, or the response carries meta or nested data; distinct = hash of the input (5) the same response oracle on concurrent batches; (6) resprot.SendRequest end to end against a live handler that calls Timeout 0-4 times before replying (non-trivial with >=2 pre-responses).")
 	ev.Assume("member names are generated in the protocol's exact case (encoding/json's case-insensitive matching is shared stdlib behaviour outside the property)")
 	ev.Assume("objects carrying more than one of rid/action/data, an ill-typed soft member, duplicate members or {\"data\":<primitive>} vs primitive are protocol-ambiguous: only no-panic (and for data-primitives: either class) is asserted")
 }
